@@ -77,6 +77,21 @@ class _HSubTask(BaseSubProjectTask):
 _HSubTask.__name__ = "BaseSubProjectTask"
 _HSubTask.__qualname__ = "BaseSubProjectTask"
 
+class _HWorker(BaseWorker):
+    __hash__ = lambda self: self._vh  # noqa: E731
+
+
+_HWorker.__name__ = "BaseWorker"
+_HWorker.__qualname__ = "BaseWorker"
+
+
+class _HFacility(BaseFacility):
+    __hash__ = lambda self: self._vh  # noqa: E731
+
+
+_HFacility.__name__ = "BaseFacility"
+_HFacility.__qualname__ = "BaseFacility"
+
 PLACEMENT_LOG = []  # appended by _HComponent / _HWorkplace, cleared by the runner per execution
 
 
@@ -130,6 +145,10 @@ def build(spec, plain=False):
     SubC = BaseSubProjectTask if plain else _HSubTask
     CompC = BaseComponent if plain else _HComponent
     WpC = BaseWorkplace if plain else _HWorkplace
+    WkC = BaseWorker if plain else _HWorker
+    FcC = BaseFacility if plain else _HFacility
+    whash = spec.get("whash")
+    nres = [0]
     m = Model()
     hashes = spec.get("hash") or list(range(len(spec["tasks"])))
     for i, ts in enumerate(spec["tasks"]):
@@ -180,9 +199,9 @@ def build(spec, plain=False):
     for tms in spec.get("teams", []):
         team = BaseTeam(name=tms["name"], ID=tms["name"])
         for ws in tms.get("workers", []):
-            w = BaseWorker(
+            w = WkC(
                 name=ws["name"],
-                ID=ws["name"],
+                ID=ws.get("id") or ws["name"],
                 cost_per_time=ws.get("cost", 0.0),
                 solo_working=bool(ws.get("solo", False)),
                 workamount_skill_mean_map=dict(ws.get("skills", {})),
@@ -193,9 +212,11 @@ def build(spec, plain=False):
                 quality_skill_mean_map={},
                 quality_skill_sd_map={},
             )
+            w._vh = 200 + (whash[nres[0]] if whash and nres[0] < len(whash) else nres[0])
+            nres[0] += 1
             team.add_worker(w)
             m.workers.append(w)
-            m.byname[w.name] = w
+            m.byname[w.ID] = w
         for ti in tms.get("targets", []):
             team.append_targeted_task(m.tasks[ti])
         m.teams.append(team)
@@ -203,18 +224,19 @@ def build(spec, plain=False):
     for wps in spec.get("workplaces", []):
         wp = WpC(name=wps["name"], ID=wps["name"], max_space_size=wps.get("cap"))
         for fs in wps.get("facilities", []):
-            f = BaseFacility(
+            f = FcC(
                 name=fs["name"],
-                ID=fs["name"],
+                ID=fs.get("id") or fs["name"],
                 cost_per_time=fs.get("cost", 0.0),
                 solo_working=bool(fs.get("solo", False)),
                 workamount_skill_mean_map=dict(fs.get("skills", {})),
                 workamount_skill_sd_map={},
                 absence_time_list=list(fs.get("absence", [])),
             )
+            f._vh = 300 + len(m.facilities)
             wp.add_facility(f)
             m.facilities.append(f)
-            m.byname[f.name] = f
+            m.byname[f.ID] = f
         for ti in wps.get("targets", []):
             wp.append_targeted_task(m.tasks[ti])
         m.workplaces.append(wp)
@@ -245,7 +267,7 @@ def adopt(project):
     m.workers = [w for t in m.teams for w in t.worker_list]
     m.facilities = [f for w in m.workplaces for f in w.facility_list]
     for o in m.tasks + m.components + m.teams + m.workplaces + m.workers + m.facilities:
-        m.byname[o.name] = o
+        m.byname[o.ID] = o
     return m
 
 
